@@ -211,9 +211,54 @@ fn codecs() {
     witness("end");
 }
 
+/// found missing by seed C19d: process-wide bookkeeping that leaks on an error path.  One instance
+/// repeats the same failing transaction (a sub-message succeeds, its reply handler fails) 100 times: the
+/// state is unchanged each time, so every repetition must give the same result, a later good transaction
+/// must work, and a second fresh instance must reproduce the whole log.  Bound: 100 repetitions.
+fn repeated_failing_replies() {
+    const REPS: usize = 100;
+    let run_one = || -> Vec<String> {
+        let mut app = App::default();
+        let user = addr("user");
+        let code = app.store_code(sc::contract());
+        let k0 = app.instantiate_contract(code, user.clone(), &Script::new(), &[], "k", None).unwrap();
+        let call = |reply_fails: bool| {
+            let on_reply = if reply_fails { Script::new().fail("reply fails") } else { Script::new().write("r", "1") };
+            Script::new().write("t", "1").sub(
+                cosmwasm_std::WasmMsg::Execute { contract_addr: k0.to_string(), msg: Script::new().bin(), funds: vec![] },
+                ReplyOn::Success,
+                1,
+                Some(on_reply),
+            )
+        };
+        let mut log = vec![];
+        log.push(format!("{:?}", app.execute_contract(user.clone(), k0.clone(), &call(false), &[]).map_err(|e| format!("{:#}", e))));
+        for _ in 0..REPS {
+            log.push(format!("{:?}", app.execute_contract(user.clone(), k0.clone(), &call(true), &[]).map_err(|e| format!("{:#}", e))));
+        }
+        log.push(format!("{:?}", app.execute_contract(user.clone(), k0.clone(), &call(false), &[]).map_err(|e| format!("{:#}", e))));
+        log.push(format!("{:?}", snapshot(&app)));
+        log
+    };
+    let a = run_one();
+    let b = run_one();
+    for i in 2..=REPS {
+        if !check_native("repeating_a_failed_transaction_gives_the_same_result", a[i] == a[1], || format!("repetition {}: {} vs first: {}", i, a[i], a[1])) {
+            break;
+        }
+    }
+    check_native("good_transaction_after_failures_behaves_as_before", a[REPS + 1] == a[0], || format!("{} vs {}", a[REPS + 1], a[0]));
+    check_native("second_instance_reproduces_the_whole_log", a == b, || {
+        let i = (0..a.len()).find(|i| a[*i] != b[*i]).unwrap_or(0);
+        format!("entry {}: {} vs {}", i, a[i], b[i])
+    });
+    witness("end");
+}
+
 pub fn scenarios(_tier: &str) -> Vec<Scenario> {
     vec![
         Scenario::new("two_instances_interleaved", &["end"], run),
         Scenario::new("different_address_codecs_side_by_side", &["end"], codecs),
+        Scenario::new("hundred_failing_replies_then_a_second_instance", &["end"], repeated_failing_replies),
     ]
 }
